@@ -281,7 +281,12 @@ impl<'a> G<'a> {
             let code_id = if self.rng.chance(1, 12) { 3 } else { self.rng.pick(&self.codes).id };
             let funds = if self.cfg.funds && self.rng.chance(1, 4) { self.coins(4) } else { vec![] };
             let admin = if self.rng.chance(1, 2) { Some(self.some_addr()) } else { None };
-            let salt = if self.rng.chance(1, 3) { Some(self.rng.pick(&[vec![1u8], vec![2, 2]]).clone()) } else { None };
+            // rarely a salt outside instantiate2's 1..=64 bytes (empty, 65 bytes): must be refused
+            let salt = if self.rng.chance(1, 3) {
+                Some(self.rng.pick(&[vec![1u8], vec![2, 2], vec![1u8], vec![2, 2], vec![1u8], vec![2, 2], vec![], vec![3u8; 65]]).clone())
+            } else {
+                None
+            };
             let label = self.label();
             Msg::Inst { code_id, p: self.prog(depth, true), funds, label, admin, salt }
         } else if c < 86 {
